@@ -95,7 +95,20 @@ func vhC15Shutdown() {
 	slow := [...]time.Duration{0, 300 * time.Millisecond}[vChoose("handlerTakes", 2)]
 	var shutdownBegan bool
 	s := &Server{NoDefaultDate: true, NoDefaultServerHeader: true}
+	s.ReduceMemoryUsage = vBool("reduceMemory")
+	waitedForDone, sawDone := 0, 0
 	s.Handler = func(ctx *RequestCtx) {
+		if string(ctx.Path()) == "/wait-for-done" {
+			// second round: a handler that waits to be told about the shutdown
+			waitedForDone++
+			select {
+			case <-ctx.Done():
+				sawDone++
+			case <-time.After(2 * time.Second):
+			}
+			ctx.SetBodyString("ok")
+			return
+		}
 		running++
 		started++
 		if slow > 0 {
@@ -118,13 +131,19 @@ func vhC15Shutdown() {
 
 	// connection 1: one or two pipelined requests, then stays open
 	c1 := newVlConn()
-	nreq := 1 + vChoose("pipelined", 2)
+	mode := vChoose("conn1", 3) // one request; two pipelined; two, the second sent after the first was answered
 	reqs := "GET /a HTTP/1.1\r\nHost: a\r\n\r\n"
-	if nreq == 2 {
+	if mode == 1 {
 		reqs += "GET /b HTTP/1.1\r\nHost: a\r\n\r\n"
 	}
 	ln.conns <- c1
 	c1.in <- []byte(reqs)
+	if mode == 2 {
+		go func() {
+			time.Sleep(slow + 20*time.Millisecond)
+			c1.in <- []byte("GET /b HTTP/1.1\r\nHost: a\r\n\r\n")
+		}()
+	}
 	// connection 2 (optional): served one request, then idle keep-alive
 	var c2 *vlConn
 	if vBool("idleKeepAliveConn") {
@@ -132,7 +151,7 @@ func vhC15Shutdown() {
 		ln.conns <- c2
 		c2.in <- []byte("GET /idle HTTP/1.1\r\nHost: a\r\n\r\n")
 	}
-	time.Sleep([...]time.Duration{10, 150}[vChoose("shutdownAfter", 2)] * time.Millisecond)
+	time.Sleep([...]time.Duration{10, 150, 400}[vChoose("shutdownAfter", 3)] * time.Millisecond)
 	startedBefore := started
 	shutdownBegan = true
 	t0 := time.Now()
@@ -164,4 +183,19 @@ func vhC15Shutdown() {
 	vAssert("idle-connections-are-not-waited-for", took <= slow+250*time.Millisecond)
 	vAssert("done-channel-closed-once-shutdown-began", doneSeen == afterBegin)
 	vAssert("counters-settle", s.GetOpenConnectionsCount() <= 0 && s.GetCurrentConcurrency() == 0)
+	if vBool("serveAgain") {
+		// the same Server is served and shut down a second time
+		ln2 := &vlListener{conns: make(chan net.Conn, 4), done: make(chan struct{})}
+		served2 := make(chan error, 1)
+		go func() { served2 <- s.Serve(ln2) }()
+		c3 := newVlConn()
+		ln2.conns <- c3
+		c3.in <- []byte("GET /wait-for-done HTTP/1.1\r\nHost: a\r\n\r\n")
+		time.Sleep(50 * time.Millisecond)
+		err2 := s.Shutdown()
+		time.Sleep(10 * time.Millisecond)
+		rs3, ok3 := vsParseResponses(c3.wrote)
+		vAssert("second-shutdown-is-graceful-too", err2 == nil && ln2.closed >= 1 && ok3 && len(rs3) == 1)
+		vAssert("done-is-closed-on-every-shutdown", waitedForDone == 1 && sawDone == 1)
+	}
 }
